@@ -262,7 +262,12 @@ def run_mixture(key):
             y[idx0] = y[idx0] * 1e-110             # log-densities ~ +750 nats above the other slices
         else:
             y[idx0][0] = 0                          # digital silence in one frame of one slice
-    sal = S.make_saliency(lead, N, salk)
+    sal = S.make_saliency(lead, N, salk) if salk != 'bool' else None
+    if salk == 'bool':
+        # boolean selection of observations, another one in every slice
+        sal = np.ones(lead + (N,), dtype=bool)
+        for j, idx in enumerate(np.ndindex(*lead)):
+            sal[idx][(j + 1) % N::3] = False
     opts = dict(weight_constant_axis=wca)
     if sal is not None:
         opts['saliency'] = sal
@@ -371,7 +376,7 @@ def subchecks(tier, seed):
             for lead in shapes:
                 if fam == 'bingham' and (len(lead) == 3 or int(np.prod(lead)) > 6) and not thorough:
                     continue
-                for D in ((2,) if fam == 'bingham' else (2, 3)):
+                for D in ((2,) if fam == 'bingham' else (2, 3, 8) if fam == 'watson' else (2, 3)):
                     N = D + 4
                     for salk in (('none',) if fam == 'cacg' else ('none', 'graded')):
                         opts = ((1, 'eigenvalue'), (5, 'eigenvalue'), (5, 'trace'), (2, False)) \
@@ -394,11 +399,15 @@ def subchecks(tier, seed):
                     continue
                 if model == 'cbmm' and (int(np.prod(lead)) > 4 or len(lead) > 2):
                     continue
-                for K in (2, 3):
+                for K in (2, 3) + ((2.8,) if model == 'cwmm' else ()):
                     D = 3 if model != 'cbmm' else 2
+                    if K == 2.8:
+                        K, D = 2, 8           # cWMM with eight channels
                     N = K * (D + 2) + 2
                     for wca in ((-1,), -2, 'pos_last'):
-                        for salk in ('none', 'graded'):
+                        for salk in ('none', 'graded', 'bool'):
+                            if salk == 'bool' and (model not in ('gmm', 'vmfmm', 'cwmm') or wca != (-1,) or K == 3):
+                                continue
                             for opt in optlist:
                                 for its in (1, 3) + ((12,) if opt == 'full+eps' else ()):
                                     if wca == 'pos_last' and (salk != 'none' or K == 3 or opt not in optlist[:1]):
